@@ -386,6 +386,9 @@ def run_c07(ctx):
             if m["formatted"] not in r.out:
                 ctx.fail("toggle_misrecognised", r.case, "a comment that is not a pasfmt toggle disabled formatting", observed=r.out.hex()[:2000])
 
+    for wc in witness_cases(ctx, "C07"):
+        wc.meta["regions"] = [wc.input_bytes()]
+        cases.append(wc)
     ctx.run_stream(cases, units=["ignore", "recon", "lower", "comment", "eofnl"], oracle=oracle)
     ctx.hypotheses["no_net inside ignored runs (no safety-net newline inside a region)"] = "region substring oracle on every case; lone-CR terminated comments included in the toggle forms"
     ctx.hypotheses["which lines are AsmInstruction lines (grammar oracle)"] = "asm stream: instruction lines compared byte for byte"
@@ -741,6 +744,7 @@ def run_c12(ctx):
         if "'''" in s["text"]:
             cases.append(ctx.case("seed", s["text"], gen.random_cfg(rng, wrap=s["wrap"])))
             cases.append(ctx.case("seed", s["text"], gen.random_cfg(rng)))
+    cases += witness_cases(ctx, "C12")
     ctx.run_stream(cases, units=["mlstring", "mlvalue", "recon"])
     ctx.hypotheses["H-W5 (re-indentation uses the literal token's final indentation; reflow does not change it)"] = "unit mlstring uses the FINAL counters of the literal token on every case"
     ctx.hypotheses["plan_ok: a multi-line literal starts its line"] = "unit mlvalue compares interior lines with the literal's own indentation"
@@ -836,6 +840,7 @@ def run_c04(ctx):
         cases.append(ctx.case("directives", directive_heavy(rng, rng.randrange(2, 40)), gen.random_cfg(rng)))
     for _ in range(ctx.n(300, 5000)):
         cases.append(ctx.case("bytes", gen.random_bytes_text(rng, rng.randrange(1, 80)), gen.random_cfg(rng)))
+    cases += witness_cases(ctx, "C04")
     for s in gen.seeds()[:: ctx.n(3, 1)]:
         b = char_boundaries(s["text"])
         cases.append(ctx.case("seedcur", s["text"], gen.random_cfg(rng), cursors=b[:: max(1, len(b) // 40)] + [b[-1] + 1]))
